@@ -22,7 +22,7 @@ def E(comment, name, stmt, proof):
     items.append(('E', comment, name, stmt.strip('\n'), proof))
 def S(title):
     items.append(('S', title))
-exec(open('/root/work/pfF/gen/items.py').read())
+exec(open('/verif/gen/items.py').read())
 out=[HEADER]
 for it in items:
     if it[0]=='S':
@@ -33,4 +33,4 @@ for it in items:
     else:
         _,c,n,s,p=it
         out.append('\n(* %s *)\nExample %s :\n%s.\nProof. %s Qed.\n' % (c,n,s,p))
-open('/root/work/pfF/coq/Props/C16_more.v','w').write(''.join(out))
+open('/verif/coq/Props/C16_more.v','w').write(''.join(out))
